@@ -112,6 +112,7 @@ class Variants:
             "vr_marking_flag": not probes.get("marking_flag_ignored", True),
             "vr_flag_from_stored": not probes.get("null_custom_sets_flag", True),
             "vr_ext_order_sorted": bool(probes.get("ext_order_sorted", False)),
+            "vr_sock_int": not probes.get("sock_bool", True),
         }
 
     def coq_variant(self):
